@@ -638,6 +638,8 @@ def r01f(ctx, classes: List[ClassInfo]):
 
 
 def run(ctx):
+    from .c09 import r09f
+    r09f(ctx, 'R01i')       # depthwise: graph classification agrees with export
     classes = pit_layer_classes(ctx.repo)
     ctx.floor('C01', 'PITModule subclasses', len(classes), 5)
     r01a(ctx, classes)
